@@ -61,6 +61,11 @@ Theorem C03_lonrange_alone_selects_by_longitude_only : forall (cfg : config V) f
   (In x use <-> exists s, In s (i_locs first) /\ l_id s = x /\ a <= l_lon s <= b).
 Proof. exact (lonrange_alone V). Qed.
 
+(* a dataset that is built verifies at least one time, lead time and location: a selection that leaves nothing (also through
+   -d / -tod) stops with an error message, so no output ever has to cope with an empty dimension *)
+Theorem C03_built_dataset_is_never_empty : forall (cfg : config V) ins d, mk_data V cfg ins = OK d -> d_times d <> [].
+Proof. exact (built_dataset_has_times V). Qed.
+
 (* (b) ascending order, no duplicates *)
 Theorem C03_dimensions_strictly_ascending : forall (cfg : config V) ins d,
   mk_data V cfg ins = OK d ->
